@@ -112,3 +112,45 @@ def ordered_io(ctx: Ctx, chk) -> None:
                 if isinstance(t, ast.Attribute) and ("self." + t.attr) in execs and f.name not in ("__init__", "__post_init__"):
                     chk.instance(rule)
                     chk.refute(rule, fkey(f, node) + "::executor-replaced", f"`{norm(node)[:60]}` replaces the file-operation pool while operations of the old one may still run: they are no longer ordered with the new ones", ctx.loc(f, node))
+
+
+def executor_alive(ctx: Ctx, chk, rule: str = "EXECUTOR-ALIVE") -> None:
+    """A Persistence object outlives a gateway context (the same Gateway can be entered again, `save()` / `load()`
+    are public): the pool its file operations run on must stay usable for as long as the object lives."""
+    chk.rule(rule, "the worker pool the file operations of Persistence run on is never shut down by the library: after `shutdown()` every later load / save of the same Persistence object (a gateway context entered a second time, a save requested by the application) fails with RuntimeError('cannot schedule new futures after shutdown') instead of reading / writing the file")
+    pers = ctx.cls(PERS)
+    attrs: set[str] = set()
+    for fl in pers.mro_methods().values():
+        for f0 in fl:
+            for node in ctx.own_nodes(f0):
+                if isinstance(node, ast.Call):
+                    for kw in node.keywords:
+                        if kw.arg == "executor" and isinstance(kw.value, ast.Attribute):
+                            attrs.add(kw.value.attr)
+                    if isinstance(node.func, ast.Attribute) and node.func.attr == "run_in_executor" and node.args and isinstance(node.args[0], ast.Attribute):
+                        attrs.add(node.args[0].attr)
+    chk.floor(rule, "executor attributes of Persistence", len(attrs), 1)
+    n = 0
+    for f in ctx.prog.all_functions():
+        aliases = {t.id for node in ctx.own_nodes(f) if isinstance(node, ast.Assign) and isinstance(node.value, ast.Attribute) and node.value.attr in attrs for t in node.targets if isinstance(t, ast.Name)}
+        for node in ctx.own_nodes(f):
+            if not (isinstance(node, ast.Call) and isinstance(node.func, ast.Attribute) and node.func.attr == "shutdown"):
+                continue
+            recv = node.func.value
+            if (isinstance(recv, ast.Attribute) and recv.attr in attrs) or (isinstance(recv, ast.Name) and recv.id in aliases):
+                n += 1
+                chk.instance(rule)
+                chk.refute(rule, fkey(f, node) + "::shutdown", f"`{norm(node)[:60]}` in {f.qualname} shuts the file-operation pool down while the Persistence object stays in use: the next load / save on it raises RuntimeError (not a persistence error), e.g. when the gateway context is entered again", ctx.loc(f, node))
+            # `with self._executor:` shuts down on exit as well
+    for f in ctx.prog.all_functions():
+        for node in ctx.own_nodes(f):
+            if isinstance(node, (ast.With, ast.AsyncWith)):
+                for it in node.items:
+                    e = it.context_expr
+                    if isinstance(e, ast.Attribute) and e.attr in attrs:
+                        n += 1
+                        chk.instance(rule)
+                        chk.refute(rule, fkey(f, node) + "::with-shutdown", f"`with {norm(e)}:` in {f.qualname} shuts the file-operation pool down at the end of the block: the next load / save on the same Persistence object raises RuntimeError", ctx.loc(f, node))
+    if n == 0:
+        chk.instance(rule)
+        chk.ok(rule, f"{pers.fq}::{','.join(sorted(attrs))}::never-shut-down", f"no `.shutdown(` / `with` on {sorted(attrs)} anywhere in the package", f"{pers.module.relpath}:{pers.node.lineno}")
